@@ -143,7 +143,10 @@ int main(int argc, char** argv) {
         ReplayIn in; if (!in.load(argv[2])) { fprintf(stderr, "cannot read %s\n", argv[2]); return 2; }
         Cfg c{(int)in.i("n"), (int)in.i("nb"), (int)in.i("it"), (int)in.i("seed"), (float)in.d("qmin", 0, -6), (float)in.d("qmax", 0, 6), (float)in.d("pmin", 0, -6), (float)in.d("pmax", 0, 6),
               (int)in.i("fptype", 0, 3), (int)in.i("fptrack", 0, 1), (int)in.i("dt", 0, 3), (float)in.d("e1", 0, 0.01), (float)in.d("angle", 0, 0.1)};
-        World w = build(c, false);
+        // the world (which contains maps of every kind, as the snapshot process does) is built with the harness' standard parameters; the map under test below gets the replayed ones:
+        // whatever an earlier map of the same process leaves behind (function-local statics, caches) is then present natively as it is in the snapshot
+        Cfg cw = c; cw.angle = 0.1f;
+        World w = build(cw, true);
         size_t N = (size_t)c.nb * c.n * c.n;
         if (in.has("data")) { auto v = in.fv("data"); for (size_t i = 0; i < v.size() && i < N; i++) (*w.in)->getData()[i] = v[i]; }
         FILE* fo = fopen(argv[3], "w");
